@@ -98,14 +98,13 @@ let parse_r line =
   | "fpoint" | "opoint" -> if c.t.(c.i) = "exn" then RDomErr else RPoint (read_pt c)
   | "oval" | "eval" -> if c.t.(c.i) = "exn" then RDomErr else (let n = nextz c in let d = pos_of_z (nextz c) in RValue { qnum = n; qden = d })
   | s -> raise (Syntax ("r kind " ^ s))
-type sobs = { kw : mstatus; last : q list; ok : int; ncs : int; risk : bool; lgd : int }
+type sobs = { kw : mstatus; last : q list; ok : int; ncs : int; lgd : int }
 let parse_s line =
   let c = cur_of line in
   (match next c with "s" -> () | s -> raise (Syntax ("s expected: " ^ s)));
   let kw = status_of (next c) in let last = read_pt c in
   ignore (next c); let ok = nexti c in ignore (next c); let ncs = nexti c in
-  let risk = if more c then (ignore (next c); nexti c = 1) else false in
-  let lgd = if more c then (ignore (next c); nexti c) else List.length last in { kw; last; ok; ncs; risk; lgd }
+  let lgd = if more c then (ignore (next c); nexti c) else List.length last in { kw; last; ok; ncs; lgd }
 type fobs = { fsol : sol; fval : q option; fpt : q list option; fok : bool; fsat : bool; fspt : q list option }
 let parse_f line =
   let c = cur_of line in
@@ -152,15 +151,19 @@ let report verdict case step kind line feats =
 
 exception Core_mismatch of string
 
-let judge_case (cid : string) (cmds : string list) (obs : (string * string * string) list) =
+let parse_b line = let c = cur_of line in
+  (match next c with "b" -> () | s -> raise (Syntax ("b expected: " ^ s))); ignore (next c); nexti c = 1
+
+let judge_case (cid : string) (cmds : string list) (obs : (string * string * string * string) list) =
   incr stats_cases;
   let st : mstate option ref = ref None in
   let hist = ref [] in
   let shape = Buffer.create 32 in   (* history shape: one letter per command *)
   let tainted = ref false in        (* pending constraints were incorporated from a state flagged `risk' *)
-  List.iteri (fun idx (line, (lr, ls, lf)) ->
+  List.iteri (fun idx (line, (lb, lr, ls, lf)) ->
       incr stats_steps;
       let step_no = idx + 1 in
+      let risk = parse_b lb in
       let r = parse_r lr and so = parse_s ls and fo = parse_f lf in
       let parsed = parse_cmd line in
       let word = List.hd (String.split_on_char ' ' line) in
@@ -184,7 +187,7 @@ let judge_case (cid : string) (cmds : string list) (obs : (string * string * str
         | Ans rr -> fo.fsol = ref_sol rr && (match rr, fo.fval with ROptimal (v, _), Some w -> qeq v w | ROptimal _, None -> false | _ -> true)
         | OutOfFuel -> false in
       (match parsed with
-       | Cmd (Solve | IsSatisfiable | FeasiblePoint | OptimizingPoint | OptimalValue) when so.risk -> tainted := true
+       | Cmd (Solve | IsSatisfiable | FeasiblePoint | OptimizingPoint | OptimalValue) when risk -> tainted := true
        | _ -> ());
       let feats extra =
         [ "tainted", string_of_bool !tainted; "pricing", pricing_name pr; "dim", string_of_int (int_of_nat data.pdim); "ints", string_of_int nints;
@@ -358,7 +361,7 @@ let () =
       match Hashtbl.find_opt obs_tbl id with
       | None -> ()
       | Some ls ->
-        let rec triples = function a :: b :: c :: rest -> (a, b, c) :: triples rest | [] -> [] | _ -> raise (Syntax "observation lines not in triples") in
+        let rec triples = function a :: b :: c :: d :: rest -> (a, b, c, d) :: triples rest | [] -> [] | _ -> raise (Syntax "observation lines not in groups of four") in
         (try
            let tr = triples ls in
            if List.length tr <> List.length cmds then raise (Syntax "observation count differs from command count");
